@@ -204,6 +204,23 @@ theorem C20_route (m : Mode) (seen has : Bool) :
   cases m <;> cases seen <;> cases has <;> simp [masterRoute, masterSeen, schedRoute]
 
 
+/-- **no request is left behind in the scheduler**: after any history of drains, master
+    registrations, de-registrations and cancel messages, no request waits for a master that is
+    registered, and none waits for "any master" while some master is registered -/
+theorem C20_forward (ops : List FOp) :
+    FInv (ops.foldl fwdStep { queues := [], backlog := [], delivered := [], failed := [], canceled := [] }) := by
+  have h0 : FInv { queues := [], backlog := [], delivered := [], failed := [], canceled := [] } :=
+    ⟨fun m hm => by cases hm, fun h => absurd rfl h⟩
+  generalize ({ queues := [], backlog := [], delivered := [], failed := [], canceled := [] } : Fwd) = s at h0
+  induction ops generalizing s with
+  | nil => exact h0
+  | cons op ops ih => exact ih _ (finv_step s op h0)
+
+/-- requests that waited are handed over when their master registers -/
+example : (([FOp.incoming [(some 1, [0]), (none, [1, 2])], .register 1].foldl fwdStep
+            { queues := [], backlog := [], delivered := [], failed := [], canceled := [] }).delivered)
+          = [(1, 0), (1, 1), (1, 2)] := by decide
+
 /-! ## (2) life cycle of a request inside the worker (code after the repair: `flagCheck = true`) -/
 
 def wpDone : WP → Bool
